@@ -21,5 +21,8 @@ CONSTANTS
  DevInplaceInput = FALSE
  DevMoveBeforeClose = FALSE
  DevRouteDiscard = FALSE
+ DevStageFallback = FALSE
+ DevBackupSkip = FALSE
+ EnvInits <- MCEnvInits
 INVARIANT SuccessState
 CHECK_DEADLOCK FALSE
